@@ -458,7 +458,17 @@ def clause_d(rep, F):
                     neg = False
                     while e[0] == "un" and e[1] == "Not":
                         e = e[2]; neg = not neg
-                    if e[0] == "call" and e[1] == "saphyr_parser::char_traits::is_hex" and tables.normalize(e[2][0]) == arg:
+                    same_local = False
+                    if e[0] == "call" and e[1] == "saphyr_parser::char_traits::is_hex":
+                        # the test and the conversion read the same variable (whatever the depth at which its definition is printed)
+                        la = is_local(t["args"][0])
+                        for b3, t3, ck3, fr3 in f.calls():
+                            if ck3 == "saphyr_parser::char_traits::is_hex" and t3["dest"] is not None and not t3["dest"]["p"] \
+                                    and cfg.resolve_copy_chain(f, t3["dest"]["l"]) == cfg.resolve_copy_chain(f, is_local(tt["discr"]) if is_local(tt["discr"]) is not None else -1):
+                                lb = is_local(t3["args"][0])
+                                if la is not None and lb is not None and cfg.resolve_copy_chain(f, la) == cfg.resolve_copy_chain(f, lb):
+                                    same_local = True
+                    if e[0] == "call" and e[1] == "saphyr_parser::char_traits::is_hex" and (tables.normalize(e[2][0]) == arg or same_local):
                         m, other = cfg.switch_edge_blocks(f, b2)
                         true_tg = m.get(0) if neg else other
                         if true_tg is not None and cfg.dominated_by_edge(f, bb, b2, true_tg):
